@@ -54,6 +54,8 @@ const Prelude = `(set-option :produce-models true)
 (assert (forall ((a Str) (b Str) (c Str)) (! (= (strcat (strcat a b) c) (strcat a (strcat b c))) :pattern ((strcat (strcat a b) c)))))
 (assert (forall ((a Str)) (! (and (= (strcat emptyStr a) a) (= (strcat a emptyStr) a)) :pattern ((strcat emptyStr a)) :pattern ((strcat a emptyStr)))))
 (assert (forall ((s Str)) (! (and (hasPrefix s s) (= (strafter s s) emptyStr)) :pattern ((strafter s s)))))
+(assert (forall ((a Str) (b Str)) (! (= (strsub (strcat a b) (len a) (+ (len a) (len b))) b) :pattern ((strcat a b)))))
+(assert (forall ((s Str)) (! (= (strsub s 0 (len s)) s) :pattern ((strsub s 0 (len s))))))
 ; ---- slices ---------------------------------------------------------------------
 (declare-datatypes ((Slice 0)) (((mkslice (sbase Int) (soff Int) (slen Int) (scap Int)))))
 (define-fun nilSlice () Slice (mkslice 0 0 0 0))
